@@ -9,6 +9,7 @@ import (
 	"os/exec"
 	"path/filepath"
 	"regexp"
+	"strconv"
 	"strings"
 	"time"
 
@@ -22,6 +23,7 @@ type RealJob struct {
 	Seconds float64   `json:"seconds"`
 	Seed    int64     `json:"seed"`
 	Jitter  bool      `json:"jitter"`
+	LimitS  float64   `json:"limit_s"`
 }
 
 type RealFailure struct {
@@ -37,6 +39,7 @@ type RealResult struct {
 	Got      [][]int       `json:"got"`
 	Results  []int         `json:"results"`
 	ErrCode  int           `json:"err_code"`
+	Starved  string        `json:"starved"`
 }
 
 // RealOut is one execution of the unrewritten program on the real runtime.
@@ -56,6 +59,11 @@ func RunReal(c *core.Ctx, bin string, job RealJob, name string, timeout time.Dur
 	dir := filepath.Join(c.Work, "jobs")
 	os.MkdirAll(dir, 0755)
 	jp := filepath.Join(dir, name+".real.json")
+	if job.LimitS == 0 { // VERIF_K_LIMIT_S: test hook to provoke the "too slow to judge" path without a loaded machine
+		if v, err := strconv.ParseFloat(os.Getenv("VERIF_K_LIMIT_S"), 64); err == nil && v > 0 {
+			job.LimitS = v
+		}
+	}
 	data, _ := json.Marshal(job)
 	if err := os.WriteFile(jp, data, 0644); err != nil {
 		return nil, err
